@@ -272,6 +272,26 @@ func min(a, b int) int {
 
 // ---------- R1.4 primitive codec pairing ----------
 
+// stripSameWidth removes conversions between integer types of the same size
+// and ChangeType only: a narrowing conversion on the way is a lossy codec.
+func (p *Prog) stripSameWidth(v ssa.Value) ssa.Value {
+	for {
+		switch x := v.(type) {
+		case *ssa.ChangeType:
+			v = x.X
+		case *ssa.Convert:
+			a, ok1 := x.X.Type().Underlying().(*types.Basic)
+			b, ok2 := x.Type().Underlying().(*types.Basic)
+			if !ok1 || !ok2 || a.Info()&types.IsInteger == 0 || b.Info()&types.IsInteger == 0 || p.U.Sizes.Sizeof(a) != p.U.Sizes.Sizeof(b) {
+				return v
+			}
+			v = x.X
+		default:
+			return v
+		}
+	}
+}
+
 func (p *Prog) checkCodecPairing(c *Check) {
 	decs, _ := p.wireDecoders()
 	for _, d := range decs {
@@ -329,11 +349,11 @@ func (p *Prog) checkCodecPairing(c *Check) {
 			switch {
 			case put == nil || get == nil:
 				c.Bad("R1.4", cons, pos, "encoder and decoder do not use binary.BigEndian.PutUint"+n+" / Uint"+n+" as a pair")
-			case stripConvs(put.Call.Args[2]) != ssa.Value(enc.Params[0]):
+			case p.stripSameWidth(put.Call.Args[2]) != ssa.Value(enc.Params[0]):
 				c.Bad("R1.4", cons, pos, "the encoder does not write the value itself")
 			case get.Call.Args[1] != ssa.Value(data):
 				c.Bad("R1.4", cons, posOf(p, get), "the decoder does not read from the start of its input")
-			case st == nil || stripConvs(st.Val) != ssa.Value(get):
+			case st == nil || p.stripSameWidth(st.Val) != ssa.Value(get):
 				c.Bad("R1.4", cons, p.Pos(d.Pos()), "the decoder does not store the value read")
 			default:
 				c.OK("R1.4", cons, pos, "PutUint"+n+"(buf[i:], v) ↔ v = Uint"+n+"(data), big endian both ways")
@@ -342,7 +362,7 @@ func (p *Prog) checkCodecPairing(c *Check) {
 			st := storeThroughRecv()
 			okD := false
 			if st != nil {
-				if ld, ok := stripConvs(st.Val).(*ssa.UnOp); ok && ld.Op == token.MUL {
+				if ld, ok := p.stripSameWidth(st.Val).(*ssa.UnOp); ok && ld.Op == token.MUL {
 					if ia, ok := ld.X.(*ssa.IndexAddr); ok && ia.X == ssa.Value(data) {
 						if k, isC := constInt(ia.Index); isC && k == 0 {
 							okD = true
@@ -354,7 +374,7 @@ func (p *Prog) checkCodecPairing(c *Check) {
 			for _, b := range enc.Blocks {
 				for _, ins := range b.Instrs {
 					if s, ok := ins.(*ssa.Store); ok {
-						if _, isIA := s.Addr.(*ssa.IndexAddr); isIA && stripConvs(s.Val) == ssa.Value(enc.Params[0]) {
+						if _, isIA := s.Addr.(*ssa.IndexAddr); isIA && p.stripSameWidth(s.Val) == ssa.Value(enc.Params[0]) {
 							okE = true
 						}
 					}
